@@ -30,7 +30,7 @@ import vlib
 warnings.simplefilter("ignore")
 
 ROLES = ["data0", "data1", "points", "probs", "sample", "limits", "deltas", "semantics", "fit_desc",
-         "edge_points", "edge_probs", "edge_vec"]
+         "edge_points", "edge_probs", "edge_vec", "dc", "levels", "par_rename", "steps"]
 NROLES = len(ROLES)
 
 
@@ -43,7 +43,7 @@ GETTERS = ["get_DNVGL_Hs_Tz", "get_DNVGL_Hs_U", "get_OMAE2020_Hs_Tz", "get_OMAE2
            "get_Windmeier_EW_Hs_S", "get_Nonzero_EW_Hs_S"]
 DATA_KIND = {"get_DNVGL_Hs_Tz": "hs_tz", "get_DNVGL_Hs_U": "hs_u", "get_OMAE2020_Hs_Tz": "hs_tz",
              "get_OMAE2020_V_Hs": "v_hs", "get_Windmeier_EW_Hs_S": "hs_tz", "get_Nonzero_EW_Hs_S": "hs_tz",
-             "custom3d": "hs_tz_v"}
+             "custom3d": "hs_tz_v", "custom3d_chain": "hs_tz_v"}
 LIMITS = {"hs_tz": [(0, 12), (0, 25)], "hs_u": [(0, 12), (0, 45)], "v_hs": [(0, 40), (0, 14)], "hs_tz_v": [(0, 10), (0, 20), (0, 40)]}
 DELTAS = {"hs_tz": [0.3, 0.5], "hs_u": [0.3, 1.0], "v_hs": [1.0, 0.3], "hs_tz_v": [1.0, 2.0, 4.0]}
 
@@ -70,7 +70,7 @@ def synth(kind, n, seed):
 
 
 # ====================================================================== models
-def custom3d_description(v):
+def custom3d_description(v, chain=False):
     def _power3(x, a, b, c):
         return a + b * x ** c
 
@@ -80,7 +80,7 @@ def custom3d_description(v):
     d0 = {"distribution": v.WeibullDistribution(), "intervals": v.WidthOfIntervalSlicer(width=0.5, min_n_points=30)}
     d1 = {"distribution": v.LogNormalDistribution(), "conditional_on": 0,
           "parameters": {"mu": v.DependenceFunction(_power3, bounds), "sigma": v.DependenceFunction(_exp3, bounds)}}
-    d2 = {"distribution": v.WeibullDistribution(f_gamma=0), "conditional_on": 0,
+    d2 = {"distribution": v.WeibullDistribution(f_gamma=0), "conditional_on": 1 if chain else 0,
           "parameters": {"alpha": v.DependenceFunction(_power3, bounds), "beta": v.DependenceFunction(_power3, bounds)}}
     return [d0, d1, d2], None, None
 
@@ -88,8 +88,8 @@ def custom3d_description(v):
 def make_model(name):
     """a model from a FRESH description; returns a record"""
     v = _v()
-    if name == "custom3d":
-        out = custom3d_description(v)
+    if name in ("custom3d", "custom3d_chain"):
+        out = custom3d_description(v, chain=(name == "custom3d_chain"))
     else:
         out = getattr(v, name)()
     dd, fd, sem = out[0], out[1], out[2]
@@ -344,11 +344,95 @@ def getter_graph_check(ctx):
                                  "mutable_objects_per_result": sorted(len(g[3]) for g in graphs)[::5]}
 
 
+# ====================================================================== every distribution family, utility functions
+def family_and_utility_sweep(ctx):
+    """pdf / cdf / icdf / seeded draw_sample of EVERY distribution family (also wrapped in a ConditionalDistribution),
+    DependenceFunction.__call__, sort_points_to_form_continuous_line, the variable transformations: the distribution's
+    attributes and the caller's float arrays (negative, zero, positive entries; probabilities 0 and 1) are compared
+    before / after, and the call is repeated and must return identical bits"""
+    v = _v()
+    from virocon.distributions import ConditionalDistribution
+    import virocon.variable_transform as vt
+    import scipy.stats as sts
+
+    class _Gamma(v.ScipyDistribution):
+        scipy_dist_name = "gamma"
+    fams = [("WeibullDistribution", lambda: v.WeibullDistribution(2.0, 1.5, 0.1)), ("LogNormalDistribution", lambda: v.LogNormalDistribution(0.5, 0.3)),
+            ("NormalDistribution", lambda: v.NormalDistribution(1.0, 2.0)), ("LogNormalNormFitDistribution", lambda: __import__("virocon.distributions", fromlist=["x"]).LogNormalNormFitDistribution(2.0, 0.7)),
+            ("ExponentiatedWeibullDistribution", lambda: v.ExponentiatedWeibullDistribution(1.5, 1.2, 2.0)),
+            ("GeneralizedGammaDistribution", lambda: v.GeneralizedGammaDistribution(2.0, 1.5, 0.8)),
+            ("VonMisesDistribution", lambda: v.VonMisesDistribution(2.0, 0.5)), ("ScipyDistribution(gamma)", lambda: _Gamma(a=2.0, loc=0.0, scale=1.5))]
+    ncall, bad = 0, 0
+
+    def judge(site, call, owner, arrays):
+        nonlocal ncall, bad
+        ncall += 1
+        b_owner, b_arr = {}, [a.copy() for a in arrays]
+        snap(owner, "o", b_owner, {})
+        try:
+            r1 = call()
+            r2 = call()
+        except Exception:  # noqa  (rejected input: nothing to compare, the writes are still judged)
+            r1 = r2 = None
+        a_owner = {}
+        snap(owner, "o", a_owner, {})
+        what = None
+        if diff_paths(b_owner, a_owner):
+            what = ("evaluation-mutates-model", "%s changed its object: %s" % (site, diff_paths(b_owner, a_owner)[0]))
+        for i, (x0, x1) in enumerate(zip(b_arr, arrays)):
+            if x0.tobytes() != x1.tobytes():
+                what = ("input-array", "%s overwrote its argument %d: %r -> %r" % (site, i, x0.tolist(), x1.tolist()))
+        if r1 is not None and result_value(np.asarray(r1, dtype=float)) != result_value(np.asarray(r2, dtype=float)):
+            what = ("repeatability", "%s returned different results when repeated" % site)
+        ctx.count(("sweep", site), True)
+        if what:
+            bad += 1
+            ctx.violation({"clause": what[0], "site": site}, what[1], {"kind": "sweep", "site": site})
+    for name, mk in fams:
+        d = mk()
+        xs = np.array([-0.5, 0.0, 0.3, 1.7, 4.0])
+        ps = np.array([0.0, 0.2, 0.5, 0.9, 1.0])
+        judge(name + ".pdf", lambda: d.pdf(xs), d, [xs])
+        judge(name + ".cdf", lambda: d.cdf(xs), d, [xs])
+        judge(name + ".icdf", lambda: d.icdf(ps), d, [ps])
+        judge(name + ".draw_sample(seeded)", lambda: d.draw_sample(50, random_state=11), d, [])
+        if name.startswith("Scipy"):
+            continue
+        # the same family as the template of a conditional distribution: every parameter a dependence function
+        pars = list(d.parameters)
+        deps = {}
+        for i, pn in enumerate(pars):
+            val = float(d.parameters[pn])
+            deps[pn] = v.DependenceFunction(lambda x, a, b: a + b * x * 0.01, bounds=None)
+            deps[pn].parameters = {"a": val, "b": 1.0}
+        cd = ConditionalDistribution(mk(), deps)
+        g = np.array([-0.5, 0.0, 0.5, 1.0, 2.0])
+        judge("Conditional" + name + ".pdf", lambda: cd.pdf(xs, g), cd, [xs, g])
+        judge("Conditional" + name + ".cdf", lambda: cd.cdf(xs, g), cd, [xs, g])
+        judge("Conditional" + name + ".icdf", lambda: cd.icdf(ps, g), cd, [ps, g])
+        judge("Conditional" + name + ".draw_sample(seeded)", lambda: cd.draw_sample(1, g, random_state=5), cd, [g])
+        judge("DependenceFunction.__call__", lambda: deps[pars[0]](g), deps[pars[0]], [g])
+    r = np.random.default_rng(3)
+    px, py = np.cos(np.linspace(0, 6, 40)) + 0.01 * r.standard_normal(40), np.sin(np.linspace(0, 6, 40))
+    perm = r.permutation(40)
+    px, py = px[perm].copy(), py[perm].copy()
+    holder = types.SimpleNamespace()
+    judge("sort_points_to_form_continuous_line", lambda: np.array(v.sort_points_to_form_continuous_line(px, py, search_for_optimal_start=True)), holder, [px, py])
+    hs, tz = np.array([0.0, 0.5, 2.0, 6.0]), np.array([3.0, 4.0, 6.0, 9.0])
+    for fn in ("hs_tz_to_s_d", "hs_s_to_hs_tz", "hs_d_to_s_tz", "s_d_to_hs_tz", "hs_tz_to_hs_s") if False else [n for n in dir(vt) if "_to_" in n]:
+        f = getattr(vt, fn)
+        a1, a2 = hs.copy(), tz.copy() if "tz_to" in fn else np.array([0.0, 0.01, 0.03, 0.06])
+        judge("variable_transform." + fn, lambda: np.array(f(a1, a2)), holder, [a1, a2])
+    ctx.notes["family_and_utility_sweep"] = {"calls_judged": ncall, "violations": bad}
+
+
 # ====================================================================== operations
 # python entry -> (Coq entry class, needs)   The Coq class fixes the footprint.
 ENTRY_CLASS = {
     "marginal_cdf_dep": "MarginalCdf", "dist0_pdf": "DistPdf", "dist0_cdf": "DistCdf", "dist0_icdf": "DistIcdf",
     "pdf": "Pdf", "cdf": "Cdf", "marginal_pdf": "MarginalPdf", "marginal_cdf0": "MarginalCdf", "marginal_icdf0": "MarginalPdf",
+    "marginal_icdf_seeded": "MarginalIcdfSeeded", "iform_seeded": "IFORMSeeded", "conditional_cdf_mc": "ConditionalCdf",
+    "conditional_icdf_mc": "ConditionalIcdf", "conditional_sample": "ConditionalSample", "dep_call": "DepCall",
     "marginal_icdf_mc": "MarginalIcdf", "conditional_cdf": "ConditionalCdf", "conditional_icdf": "ConditionalIcdf",
     "draw_sample_seeded": "DrawSampleSeeded", "draw_sample": "DrawSample", "empirical_cdf_cached": "EmpiricalCdf",
     "empirical_cdf_sample": "Cdf", "dist_pdf": "DistPdf", "dist_cdf": "DistCdf", "dist_icdf": "DistIcdf",
@@ -356,16 +440,16 @@ ENTRY_CLASS = {
     "direct_sampling": "DirectSampling", "and": "AndC", "or": "OrC", "plot_marginal_quantiles": "PlotMarginalQuantiles",
     "plot_dependence_functions": "PlotDependenceFunctions", "plot_histograms": "PlotHistograms", "plot_isodensity": "PlotIsodensity",
 }
-EDGE_OK = {"pdf", "marginal_pdf", "marginal_cdf0", "marginal_icdf0", "conditional_cdf", "conditional_icdf", "dist_pdf", "dist_cdf",
+EDGE_OK = {"dep_call", "pdf", "marginal_pdf", "marginal_cdf0", "marginal_icdf0", "conditional_cdf", "conditional_icdf", "dist_pdf", "dist_cdf",
            "dist_icdf", "dist0_pdf", "dist0_cdf", "dist0_icdf", "empirical_cdf_sample"}
-GHM2 = ["dist0_pdf", "dist0_cdf", "dist0_icdf", "draw_sample_seeded", "dist_sample_seeded", "pdf", "marginal_pdf", "marginal_cdf0", "marginal_icdf0", "marginal_icdf_mc", "conditional_cdf", "conditional_icdf",
+GHM2 = ["marginal_icdf_seeded", "conditional_sample", "dep_call", "dist0_pdf", "dist0_cdf", "dist0_icdf", "draw_sample_seeded", "dist_sample_seeded", "pdf", "marginal_pdf", "marginal_cdf0", "marginal_icdf0", "marginal_icdf_mc", "conditional_cdf", "conditional_icdf",
         "draw_sample_seeded", "draw_sample", "dist_pdf", "dist_cdf", "dist_icdf", "dist_sample_seeded", "iform", "isorm", "hdc",
         "hdc_default", "direct_sampling", "and", "or", "plot_marginal_quantiles", "plot_dependence_functions", "plot_histograms",
         "plot_isodensity"]
-GHM3 = ["dist0_pdf", "dist0_cdf", "dist0_icdf", "draw_sample_seeded", "pdf", "marginal_cdf0", "draw_sample_seeded", "draw_sample", "dist_pdf", "dist_cdf", "dist_icdf", "dist_sample_seeded",
+GHM3 = ["marginal_icdf_seeded", "conditional_sample", "dep_call", "dist0_pdf", "dist0_cdf", "dist0_icdf", "draw_sample_seeded", "pdf", "marginal_cdf0", "draw_sample_seeded", "draw_sample", "dist_pdf", "dist_cdf", "dist_icdf", "dist_sample_seeded",
         "iform", "isorm", "hdc", "plot_dependence_functions"]
-TRANS = ["pdf", "draw_sample", "empirical_cdf_sample", "direct_sampling", "and", "or"]
-CONTOURS = {"iform", "isorm", "hdc", "hdc_default", "direct_sampling", "and", "or"}
+TRANS = ["draw_sample_seeded", "marginal_icdf_seeded", "conditional_sample", "dep_call", "pdf", "draw_sample", "empirical_cdf_sample", "direct_sampling", "and", "or"]
+CONTOURS = {"iform", "iform_seeded", "isorm", "hdc", "hdc_default", "direct_sampling", "and", "or"}
 SLOW = {"cdf": 3.0, "empirical_cdf_cached": 1.0, "hdc_default": 1.0}
 
 
@@ -398,7 +482,7 @@ class World:
                 pts[5, -1] = 0.0        # a point on the edge of the support (in-place masking would show)
             for role, a in (("data0", d0), ("data1", d1), ("points", pts), ("probs", np.array([0.1, 0.35, 0.5, 0.8, 0.97, 0.6])),
                             ("sample", d1[:2000].copy()), ("limits", [tuple(t) for t in LIMITS[r["kind"]]]),
-                            ("deltas", list(DELTAS[r["kind"]])),
+                            ("deltas", list(DELTAS[r["kind"]]) if k % 2 == 0 else np.array(DELTAS[r["kind"]], dtype=float)),
                             ("semantics", {"names": ["Var %d" % i for i in range(r["n_dim"])], "symbols": ["X_%d" % i for i in range(r["n_dim"])],
                                            "units": ["u%d" % i for i in range(r["n_dim"])]}),
                             ("fit_desc", r["fit_desc"]),
@@ -406,7 +490,11 @@ class World:
                             # "sanitising" of an argument is the typical way a caller's array gets written
                             ("edge_points", np.vstack([np.full(r["n_dim"], -0.5), np.zeros(r["n_dim"]), d0[6], d0[7]]).astype(float)),
                             ("edge_probs", np.array([0.0, 0.5, 1.0, 0.25])),
-                            ("edge_vec", np.array([-0.5, 0.0, float(d0[6, -1])]))):
+                            ("edge_vec", np.array([-0.5, 0.0, float(d0[6, -1])])),
+                            # caller-owned arguments of the plotting / design-condition functions
+                            ("dc", np.array(d0[10:14, :2], dtype=float)), ("levels", [1e-3, 1e-2, 1e-1]),
+                            ("par_rename", {"mu": "$\\mu$", "alpha": "$\\alpha$"}),
+                            ("steps", [float(np.quantile(d0[:, 0], q)) for q in (0.3, 0.5, 0.7)])):
                 assert ROLES[len(r["arr"])] == role
                 r["arr"][role] = len(self.arrays)
                 self.arrays.append(a)
@@ -513,9 +601,11 @@ def execute(world, op, results):
             return None
         r = world.recs[op["k"]]
         if op["post"] == "DesignConditions":
-            return v.calculate_design_conditions(c, steps=op.get("steps"), swap_axis=op.get("swap", False))
+            steps = world.arrays[r["arr"]["steps"]] if op.get("steps") == "list" else op.get("steps")
+            return v.calculate_design_conditions(c, steps=steps, swap_axis=op.get("swap", False))
         if op["post"] == "PlotContour":
-            out = v.plot_2D_contour(c, sample=world.arrays[r["arr"]["sample"]], design_conditions=True,
+            out = v.plot_2D_contour(c, sample=world.arrays[r["arr"]["sample"]],
+                                    design_conditions=world.arrays[r["arr"]["dc"]] if op.get("dc") else True,
                                     semantics=world.arrays[r["arr"]["semantics"]], swap_axis=op.get("swap", False))
             return out
         path = os.path.join(world.tmp, "contour_%d" % op["id"])
@@ -556,6 +646,19 @@ def execute(world, op, results):
         return m.conditional_icdf(P, last, X)
     if e == "draw_sample_seeded":
         return m.draw_sample(400, random_state=op.get("rs", 7))
+    if e == "marginal_icdf_seeded":     # Monte Carlo on a dependent dimension, seeded (keyword-only random_state)
+        return m.marginal_icdf(P, last, random_state=op.get("rs", 5))
+    if e == "iform_seeded":             # TransformedModel built with random_state=42
+        return v.IFORMContour(m, alpha, n_points=3)
+    if e == "conditional_cdf_mc":
+        return m.conditional_cdf(X[:1, 1], 1, X[:1, :1], random_state=3)
+    if e == "conditional_icdf_mc":
+        return m.conditional_icdf(P[:2], 1, X[:2, :1], random_state=3)
+    if e == "conditional_sample":
+        return m.conditional_sample(300, last, X[0, :last], random_state=op.get("rs", 3))
+    if e == "dep_call":
+        f = list(inner.distributions[last].conditional_parameters.values())[0]
+        return f(X[:, inner.conditional_on[last]])
     if e == "draw_sample":
         return m.draw_sample(400)
     if e == "empirical_cdf_cached":
@@ -589,17 +692,18 @@ def execute(world, op, results):
     if e == "plot_marginal_quantiles":
         return v.plot_marginal_quantiles(m, S[:300], semantics=sem)
     if e == "plot_dependence_functions":
-        return v.plot_dependence_functions(m, semantics=sem)
+        return v.plot_dependence_functions(m, semantics=sem, par_rename=world.arrays[A["par_rename"]])
     if e == "plot_histograms":
         return v.plot_histograms_of_interval_distributions(m, world.arrays[A[r["fitted_with"]]], semantics=sem)[1]
     if e == "plot_isodensity":
-        return v.plot_2D_isodensity(m, S[:300], semantics=sem, n_grid_steps=40)
+        return v.plot_2D_isodensity(m, S[:300], semantics=sem, n_grid_steps=40, limits=world.arrays[A["limits"]],
+                                    levels=world.arrays[A["levels"]])
     raise KeyError(e)
 
 
 # ====================================================================== history generation
 def gen_history(rng, names, quick, maxlen=6):
-    recs_kind = ["T" if n in ("get_Windmeier_EW_Hs_S", "get_Nonzero_EW_Hs_S") else ("3" if n == "custom3d" else "2") for n in names]
+    recs_kind = ["T" if n in ("get_Windmeier_EW_Hs_S", "get_Nonzero_EW_Hs_S") else ("3" if n.startswith("custom3d") else "2") for n in names]
     ops = []
     L = rng.randrange(3, maxlen + 1)
     nid = 0
@@ -618,13 +722,15 @@ def gen_history(rng, names, quick, maxlen=6):
         elif u < 0.45:                              # fit this or another model (fresh or same data, with/without descriptions)
             k = rng.randrange(len(names))
             o = {"op": "fit", "k": k, "data": arr(k, rng.choice(["data0", "data1", "data1"])),
-                 "fd": arr(k, "fit_desc") if names[k] not in ("get_DNVGL_Hs_Tz", "get_DNVGL_Hs_U", "custom3d") and rng.random() < 0.8 else None}
+                 "fd": arr(k, "fit_desc") if names[k] not in ("get_DNVGL_Hs_Tz", "get_DNVGL_Hs_U", "custom3d", "custom3d_chain") and rng.random() < 0.8 else None}
         elif u < 0.6 and conts:                     # design conditions / plot / save of an earlier contour
             c = rng.choice(conts)
             o = {"op": "post", "k": c["k"], "c": c["id"], "post": rng.choice(["DesignConditions", "PlotContour", "SaveContour"]),
                  "swap": rng.random() < 0.3, "det": True}
-            if o["post"] == "DesignConditions" and rng.random() < 0.5:
-                o["steps"] = rng.choice([4, 7])
+            if o["post"] == "DesignConditions" and rng.random() < 0.6:
+                o["steps"] = rng.choice([4, 7, "list"])
+            if o["post"] == "PlotContour" and rng.random() < 0.5:
+                o["dc"] = True
         else:
             k = rng.randrange(len(names))
             pool = {"2": GHM2, "3": GHM3, "T": TRANS}[recs_kind[k]]
@@ -648,7 +754,10 @@ def op_args(world, op):
     """numbers of the caller's objects an operation is given"""
     if op["op"] != "eval":
         r = world.recs[op["k"]]
-        return [r["arr"]["sample"], r["arr"]["semantics"]] if op.get("post") in ("PlotContour", "SaveContour") else []
+        if op.get("post") == "DesignConditions":
+            return [r["arr"]["steps"]] if op.get("steps") == "list" else []
+        extra = [r["arr"]["dc"]] if op.get("dc") else []
+        return sorted([r["arr"]["sample"], r["arr"]["semantics"]] + extra) if op.get("post") in ("PlotContour", "SaveContour") else []
     A = world.recs[op["k"]]["arr"]
     e = op["entry"]
     use = {"points"} if e in ("pdf", "cdf", "marginal_pdf", "marginal_cdf0", "conditional_cdf", "dist_pdf", "dist_cdf", "dist_sample_seeded",
@@ -665,8 +774,16 @@ def op_args(world, op):
         use = {"limits", "deltas"}
     if e == "plot_histograms":
         use = {world.recs[op["k"]]["fitted_with"]}
-    if e in ("dist0_pdf", "dist0_cdf"):
+    if e in ("dist0_pdf", "dist0_cdf", "dep_call", "conditional_sample", "conditional_cdf_mc"):
         use = {"points"}
+    if e == "marginal_icdf_seeded":
+        use = {"probs"}
+    if e == "conditional_icdf_mc":
+        use = {"probs", "points"}
+    if e == "plot_dependence_functions":
+        use = {"par_rename"}
+    if e == "plot_isodensity":
+        use = {"sample", "limits", "levels"}
     if e == "dist0_icdf":
         use = {"probs"}
     if op.get("edge"):
@@ -688,7 +805,7 @@ def coq_op(world, op, pos_of):
 
 
 def same_op(a, b):
-    keys = ("op", "k", "entry", "alpha", "c", "post", "swap", "steps", "data", "fd", "edge")
+    keys = ("op", "k", "entry", "alpha", "c", "post", "swap", "steps", "data", "fd", "edge", "dc")
     return all(a.get(x) == b.get(x) for x in keys)
 
 
@@ -837,6 +954,22 @@ def replay(ctx, rp):
         for w in c.v[:3]:
             print("  ", w)
         return bool(c.v)
+    if rp.get("kind") == "sweep":
+        class C2:
+            def __init__(s):
+                s.v, s.notes = [], {}
+
+            def count(s, *a, **k):
+                pass
+
+            def violation(s, sig, what, r):
+                if sig["site"] == rp["site"]:
+                    s.v.append(what)
+        c2 = C2()
+        family_and_utility_sweep(c2)
+        for w in c2.v[:3]:
+            print("  ", w)
+        return bool(c2.v)
     os.makedirs(os.path.join(vlib.BUILD, "C19"), exist_ok=True)
     obs, viol, _ = check_history(ctx, rp["models"], rp["ops"], rp["seed"])
     for sig, msg in viol[:3]:
@@ -850,8 +983,9 @@ def run(ctx):
     rng = ctx.rng
     os.makedirs(os.path.join(vlib.BUILD, "C19"), exist_ok=True)
     getter_graph_check(ctx)
-    nh = ctx.n(70, 220)
-    names_pool = GETTERS + ["custom3d"]
+    family_and_utility_sweep(ctx)
+    nh = ctx.n(42, 200)
+    names_pool = GETTERS + ["custom3d", "custom3d_chain"]
     hist = []
     for h in range(nh):
         K = rng.choice([2, 2, 3])
@@ -870,6 +1004,48 @@ def run(ctx):
         for i, o in enumerate(mand):
             o["id"] = i
         hist.insert(0, {"models": ["custom3d", other], "ops": mand, "seed": rng.randrange(1 << 20)})
+    # every run: the entry points that the random stream reaches rarely or that are costly (joint cdf by nquad, the
+    # Monte-Carlo paths of MultivariateModel / TransformedModel with a seed, IFORM of a TransformedModel, the cached
+    # empirical cdf), each once, with a repetition of the seeded ones after another model was fitted
+    gT = rng.choice(["get_Windmeier_EW_Hs_S", "get_Nonzero_EW_Hs_S"])
+    gG = rng.choice(["get_DNVGL_Hs_Tz", "get_OMAE2020_Hs_Tz", "get_DNVGL_Hs_U", "get_OMAE2020_V_Hs"])
+    ev = {"op": "eval", "k": 0, "dim2": True, "det": True, "alpha": 0.05}
+    fit1 = {"op": "fit", "k": 1, "data": arr_no(1, "data1"), "fd": None}
+    cover = [
+        ([gT, gG], [dict(ev, entry="iform_seeded"), dict(ev, entry="cdf"), dict(ev, entry="empirical_cdf_cached", det=False),
+                    dict(ev, entry="conditional_cdf_mc"), dict(fit1), dict(ev, entry="iform_seeded")]),
+        ([gT, gT], [dict(ev, entry="draw_sample_seeded"), dict(ev, entry="conditional_icdf_mc"), dict(ev, entry="marginal_icdf_seeded"),
+                    dict(fit1), dict(ev, entry="draw_sample_seeded"), dict(ev, entry="marginal_icdf_seeded")]),
+        ([gG, "custom3d_chain"], [dict(ev, entry="cdf"), dict(ev, entry="marginal_icdf_seeded"), dict(ev, entry="conditional_sample"),
+                                  dict(fit1), dict(ev, entry="marginal_icdf_seeded"), dict(ev, entry="conditional_sample")]),
+    ]
+    po = {"op": "post", "k": 0, "det": True, "swap": False}
+    cover += [
+        # contour pipelines with caller-owned arguments: design conditions (list of abscissae), plot (sample, semantics,
+        # precomputed design conditions), export, histograms of the fitted intervals
+        ([gG, gT], [dict(ev, entry="direct_sampling"), dict(po, c=0, post="DesignConditions", steps="list"), dict(po, c=0, post="PlotContour", dc=True),
+                    dict(po, c=0, post="SaveContour"), dict(ev, entry="plot_histograms"), dict(po, c=0, post="DesignConditions", steps="list")]),
+        ([gG, gG], [dict(ev, entry="and", det=False), dict(ev, entry="or", det=False), dict(po, c=1, post="PlotContour", swap=True),
+                    dict(ev, entry="marginal_icdf0"), dict(ev, entry="hdc"), dict(po, c=4, post="SaveContour")]),
+        ([gT, gG], [dict(ev, entry="direct_sampling"), dict(po, c=0, post="DesignConditions", steps=5), dict(po, c=0, post="PlotContour"),
+                    dict(po, c=0, post="SaveContour"), dict(ev, entry="and", det=False), dict(ev, entry="or", det=False)]),
+    ]
+    for models, ops in cover:
+        for i, o in enumerate(ops):
+            o["id"] = i
+        hist.insert(0, {"models": models, "ops": ops, "seed": rng.randrange(1 << 20)})
+    # every run: whatever entry point of the alphabet the histories generated so far do not reach gets a filler history
+    def kind_of(nm):
+        return "T" if nm in ("get_Windmeier_EW_Hs_S", "get_Nonzero_EW_Hs_S") else ("3" if nm.startswith("custom3d") else "2")
+    planned = {(kind_of(hh["models"][o["k"]]), o["entry"]) for hh in hist for o in hh["ops"] if o["op"] == "eval"}
+    for kd, pool, nm in (("2", GHM2, gG), ("T", TRANS, gT), ("3", GHM3, "custom3d")):
+        missing = [e for e in dict.fromkeys(pool) if (kd, e) not in planned]
+        for s0 in range(0, len(missing), 6):
+            ops = [{"op": "eval", "k": 0, "entry": e, "dim2": kd != "3", "alpha": 0.05, "id": i,
+                    "det": ENTRY_CLASS[e] not in ("MarginalIcdf", "DrawSample", "EmpiricalCdf", "HDCDefaultGrid", "AndC", "OrC", "PlotMarginalQuantiles")}
+                   for i, e in enumerate(missing[s0:s0 + 6])]
+            hist.append({"models": [nm, gG], "ops": ops, "seed": rng.randrange(1 << 20)})
+    ctx.notes["filler_histories_for_unreached_entry_points"] = sum(1 for _ in hist) - nh - len(cover) - 2
     # every run: marginal_cdf AND marginal_pdf of a DEPENDENT dimension, the joint pdf and the distribution-level
     # pdf/cdf/icdf forwarders on float ndarrays holding negative, zero and positive entries (probabilities 0 and 1)
     g2 = rng.choice(["get_DNVGL_Hs_Tz", "get_OMAE2020_Hs_Tz"])      # nquad on the other two can take a minute per point
